@@ -20,6 +20,9 @@ def run():
     env = {"OMPI_MCA_btl": "self"}
     runs = [([chk.seed * 1000 + i, nhist, 1 if i % 3 else 0, "--pika:threads=%d" % [4, 2, 3, 1][i % 4]], env)
             for i in range(nruns)]
+    # the same with a dedicated polling pool (another decoding of the completion-mode flags)
+    runs += [([chk.seed * 1000 + 400 + i, nhist, 1 if i % 2 else 0, "--pika:threads=%d" % [4, 3][i % 2],
+               "--pika:mpi-enable-pool"], env) for i in range(12 if chk.thorough() else 6)]
     hist = vlib.collect_histories(chk, binary, runs, "c20", timeout=900, jobs=6)
     modes = set()
     for h, o in hist:
